@@ -17,12 +17,12 @@ counterexample that the harness replays on the real `SyncState`):
 
   * "an entry that carries a path on a side carries an id on it"      — `cex_path_without_id`
   * "every entry of the pending set has a change flag with an id"      — `cex_pending_without_id`
-  * after a reload absent sides are indexed under `None` and such slots go stale — `cex_reload_stale_slot`
   * the hook does not always terminate: `cex_kids_mutual_recursion` (two directory entries)
 
 Repaired in the code (fix A = `forget_oid`, fix B = direct `_changed = 0` write) and now theorems instead of counterexamples:
 `forget_total`, `forget_inv` (no KeyError, no empty bucket, the forgotten entry leaves the pending set),
-`setattr_changed_total` (the `changed` rule no longer recurses), `fixed_*` (the old failing inputs, kernel-checked).
+`setattr_changed_total` (the `changed` rule no longer recurses), `fixed_*` (the old failing inputs, kernel-checked;
+`fixed_reload_stale_slot` for the loader repair of commit eec8a73).
 
 What is proved (no size or step bound; all quantifiers are over arbitrary states, entries, values and configurations):
 
@@ -49,7 +49,7 @@ NOT proved (model + differential tie only; stated here so that nothing is claime
     the guard of the following path assignment is not carried across it) and by `__setitem__` onto a directory side that has a path
   * moves of a directory that has directory entries beneath it (beyond `PathGuard`); termination of `_update_kids`
   * uniqueness of dictionary keys (the clauses are stated through first-match lookups `AL.get` / `St.slot`)
-  * the loader (`reload`): it breaks `IndexInv` (`cex_reload_breaks_inv`)
+  * the loader (`reload`): modelled and compared, no preservation theorem (after commit eec8a73 no counterexample is known either)
 -/
 namespace CS.State
 
@@ -282,16 +282,14 @@ theorem fixed_forget :
 def ops_forget_pathless : List Op := [ev .L .file "i1" none, .forget .L (some "i1".toList)]
 theorem fixed_forget_pathless : outcome cfg0 10 ops_forget_pathless init = none := by decide +kernel
 
-/-- after a reload absent sides are indexed under `None`; giving the side an id leaves the `(None, None)` slot stale.
-    `update(LOCAL, FILE, "i1", path="/a")`, reload, `ent[REMOTE].oid = "r1"` -/
+/-- repaired (commit eec8a73): the loader no longer indexes absent sides under `None`, so giving the side an id later leaves
+    no stale `(None, None)` slot.  `update(LOCAL, FILE, "i1", path="/a")`, reload, `ent[REMOTE].oid = "r1"` -/
 def ops_reload : List Op := [ev .L .file "i1" (some "/a"), .reload, .setSide 0 .R (.oid (some "r1".toList))]
-theorem cex_reload_stale_slot :
-    (run cfg0 10 ops_reload init).slot .R none none = some 0 ∧ ((run cfg0 10 ops_reload init).side 0 .R).oid = some "r1".toList := by
+theorem fixed_reload_stale_slot :
+    (run cfg0 10 ops_reload init).slot .R none none = none ∧ (run cfg0 10 ops_reload init).paths .R = [] ∧
+    (run cfg0 10 ops_reload init).oids .R = [(some "r1".toList, 0)] ∧
+    (run cfg0 10 [ev .L .file "i1" (some "/a"), .reload] init).oids .R = [] := by
   decide +kernel
-theorem cex_reload_breaks_inv : ¬ IndexInv (run cfg0 10 ops_reload init) := by
-  intro h
-  have := (h.1.pathSlot .R none none 0 (by decide +kernel)).2.1
-  exact absurd this (by decide +kernel)
 
 /-- two directory entries: `e` at `/a`, `f` at `/a/b`, then `e` moves to `/a/b/c` — `_update_kids` recurses for ever
     (RecursionError on the real code); the model is still recursing after 40 levels -/
